@@ -18,6 +18,7 @@ Inductive op :=
 | Filter (c : criteria)
 | Slice (s e : Z)
 | Index (tid : option Z)
+| IndexOf (x : tlt)      (* index(tl_track=x): position of an entry given as an object *)
 | SetMode (which : Z) (v : bool)
 | GetNext | GetEot | GetPrevious
 (* playback *)
@@ -136,6 +137,7 @@ Definition run_op (o : op) : M retv :=
                                 | None => None end))
       | None => i <- tl_index None ;; ret (ROptZ i)
       end
+  | IndexOf x => w <- get ;; ret (ROptZ (py_index x (World.tl w)))
   | SetMode which v => set_mode shuf which v ;; ret RNone
   | GetNext => w <- get ;; t <- next_track shuf (current w) ;; ret (ROptZ (option_map tlid t))
   | GetEot => w <- get ;; t <- eot_track shuf (current w) ;; ret (ROptZ (option_map tlid t))
